@@ -779,10 +779,14 @@ func (ex *Exec) concretizeAndRetrySlice(s *State, fr *Frame, x *ssa.Slice, sym [
 		if res == Unsat {
 			break
 		}
+		if model[t] == nil {
+			return nil, nil, unsupported("concretisation: no model value for %s", t)
+		}
 		val := ex.Ctx.BVBig(64, model[t])
 		eq := ex.Ctx.Eq(t, val)
 		alt := ex.clone(cur)
 		alt.PC = append(alt.PC, eq)
+		alt.Barrier = alt.Steps + 1
 		afr := alt.top()
 		for _, b := range []ssa.Value{x.Low, x.High, x.Max} {
 			if b == nil {
